@@ -1,0 +1,54 @@
+//go:build verif
+
+// Contracts for package engine, checked by /verif/gocv (comment-only file; no code).
+
+package engine
+
+// ---- C14: temporal windows ---------------------------------------------------------------------
+
+//@ spec func now(te *TemporalEvaluator) int64 = te.evaluationTime.UnixNano()
+//@ spec func isTS(b ast.TemporalBound, v int64) bool = b.Type == ast.TimestampBound && b.Timestamp == v
+//@ spec func inI64(v int) bool = MinInt64 <= v && v <= MaxInt64
+//@ spec func wfIv(i ast.Interval) bool =
+//@      (i.Start.Type == ast.TimestampBound || i.Start.Type == ast.NegativeInfinityBound) &&
+//@      (i.End.Type == ast.TimestampBound || i.End.Type == ast.PositiveInfinityBound)
+//@ spec func lo(i ast.Interval) int64 = i.Start.Type == ast.TimestampBound ? i.Start.Timestamp : MinInt64
+//@ spec func hi(i ast.Interval) int64 = i.End.Type == ast.TimestampBound ? i.End.Timestamp : MaxInt64
+//@ spec func covers(i ast.Interval, t int64) bool = lo(i) <= t && t <= hi(i)
+// proper: finite bounds are strictly inside the int64 range (the extreme values double as infinities)
+//@ spec func proper(i ast.Interval) bool = (i.Start.Type == ast.TimestampBound ==> i.Start.Timestamp > MinInt64) && (i.End.Type == ast.TimestampBound ==> i.End.Timestamp < MaxInt64)
+
+// A duration bound is resolved back from the evaluation time for past operators, forward for future ones.
+//@ spec func negatable(b ast.TemporalBound) bool = b.Type == ast.DurationTemporalBound ==> b.Timestamp > MinInt64
+//@ func (te *TemporalEvaluator) resolveBound(bound, isPast)
+//@   requires te != nil && negatable(bound)
+//@   modifies nothing
+//@   ensures bound.Type == ast.DurationTemporalBound && isPast && inI64(now(te) - bound.Timestamp) && bound.Timestamp > MinInt64 ==> err == nil && isTS(result, now(te) - bound.Timestamp)
+//@   ensures bound.Type == ast.DurationTemporalBound && !isPast && inI64(now(te) + bound.Timestamp) ==> err == nil && isTS(result, now(te) + bound.Timestamp)
+//@   ensures bound.Type == ast.NowBound ==> err == nil && isTS(result, now(te))
+//@   ensures bound.Type == ast.TimestampBound || bound.Type == ast.NegativeInfinityBound || bound.Type == ast.PositiveInfinityBound || bound.Type == ast.VariableBound ==> err == nil && result == bound
+
+// Past window [d1, d2]: from d2 ago to d1 ago.  Future window [d1, d2]: from d1 ahead to d2 ahead.
+//@ spec func durs(i ast.Interval) bool = i.Start.Type == ast.DurationTemporalBound && i.End.Type == ast.DurationTemporalBound && i.Start.Timestamp > MinInt64 && i.End.Timestamp > MinInt64
+
+//@ func (te *TemporalEvaluator) resolveOperatorInterval(interval)
+//@   requires te != nil && negatable(interval.Start) && negatable(interval.End)
+//@   modifies nothing
+//@   ensures durs(interval) && inI64(now(te) - interval.Start.Timestamp) && inI64(now(te) - interval.End.Timestamp)
+//@             ==> err == nil && isTS(result.Start, now(te) - interval.End.Timestamp) && isTS(result.End, now(te) - interval.Start.Timestamp)
+
+//@ func (te *TemporalEvaluator) resolveFutureOperatorInterval(interval)
+//@   requires te != nil && negatable(interval.Start) && negatable(interval.End)
+//@   modifies nothing
+//@   ensures durs(interval) && inI64(now(te) + interval.Start.Timestamp) && inI64(now(te) + interval.End.Timestamp)
+//@             ==> err == nil && isTS(result.Start, now(te) + interval.Start.Timestamp) && isTS(result.End, now(te) + interval.End.Timestamp)
+
+// Box operators: the fact's interval must hold throughout the window.
+//@ func (te *TemporalEvaluator) intervalContains(a, b)
+//@   modifies nothing
+//@   ensures wfIv(a) && wfIv(b) && result ==> (forall t int64 :: covers(b, t) ==> covers(a, t))
+//@   ensures wfIv(a) && wfIv(b) && proper(a) && proper(b) && lo(b) <= hi(b) && (forall t int64 :: covers(b, t) ==> covers(a, t)) ==> result
+
+// Diamond operators ask the store for the facts meeting the window: meeting is sharing an instant.
+//@ lemma overlapWitness(i ast.Interval, w ast.Interval):
+//@   wfIv(i) && wfIv(w) && lo(i) <= hi(i) && lo(w) <= hi(w) ==> ((lo(i) <= hi(w) && lo(w) <= hi(i)) <==> (exists t int64 :: covers(i, t) && covers(w, t)))
